@@ -105,6 +105,8 @@ DATASETS = [
     {"a": "str", "b": [None, {"k": 1}], "x": -3, "y": "1e400", "z": [[], {}]},
     {"a": 10**5000, "b": [10**5000], "x": {"k": 10**5000}, "y": -(10**5000), "z": 10**4300},
     {"a": "x" * 5000, "b": [1, 2], "x": "s", "y": 2, "z": "a/" * 600, "translations": 1, "user-name": "U", "a×b": "V"},
+    # strings JSON can carry and UTF-8 cannot: lone surrogates
+    {"a": "a\ud800b", "b": ["\udc00", {"k": "\ud83d"}], "x": {"\ud800": "v"}, "y": "\udfff" * 3, "z": "p\ud800", ")": 1, "a)s%(": 2},
 ]
 
 
@@ -354,6 +356,11 @@ REGRESSION_SOURCES = [
     "{% for i in b %}{% for k in forloop %}{{ k }}{% endfor %}{% endfor %}", "{% for i in b %}{{ forloop | json }}{{ forloop | size }}{{ forloop | first }}{% endfor %}",
     "{% include a %}{% include z %}{% render 'p' for a %}", "{% translate context: a %}m{% endtranslate %}{% translate count: a %}m{% plural %}ms{% endtranslate %}",
     "{% translate %}{% endtranslate %}", "{{ l[a] }}{{ b[a] }}{{ x[a] }}",
+    "{% translate %}50%{{ x }}{% endtranslate %}", "{% translate %}%%{{ x }}%{{ y }}%(z)s{% endtranslate %}", "{% translate %}{{ [')'] }}{% endtranslate %}", "{% translate %}{{ ['a)s%('] }}%{{ x }}{% endtranslate %}",
+    "{% render 'p' for (1..99999999999999999999999) %}", "{% include 'p' for (1..99999999999999999999999) %}", "{% include 'p' with (1..99999999999999999999999) %}", "{% render 'q' with (1..99999999999999999999999) as a %}",
+    "{{ [a] }}{{ [y] }}", "{{ [a].b }}", "{% assign q = [a] %}{{ q }}", "{% if [a] %}{% endif %}{% for i in [a] %}{% endfor %}", "{{ [b[0]] }}{{ [x.k] | default: 1 }}",
+    '{{ "\\u00\ud800a" }}', '{{ "\ud800" }}', "{{ \ud800 }}", "{{ a['\udc00'] }}", '{{ "\\ud83d\ud800" }}', "\ud800{{ x }}", "{{ a }}{{ b }}{{ x }}{% capture c %}{{ y | upcase }}{% endcapture %}{{ c | escape }}{{ z | url_encode }}{{ a | json }}",
+    "{% if (1..150000000) contains 'a' %}y{% endif %}", "{% if 1.5 in (1..150000000) %}y{% endif %}", "{% if x in (1..150000000) %}y{% endif %}{% if (1..150000000) contains y %}y{% endif %}", "{% if (1..150000000) contains nil or true in (1..150000000) %}y{% endif %}",
 ]  # fmt: skip
 
 SCHED_PARTS = {"part": "P{{ x }}", "other": "O"}
